@@ -210,6 +210,12 @@ def check_report(report, model, fm, flt, out, tag=""):
                 want = sorted(str(c) for c in fm.ctcs if getattr(c, r["ctc_pred"])())
             if not isinstance(res, list) or sorted(res) != want:
                 out.append((f"C17.value.{m}", f"expected {want[:6]}, got {res!r:.200}"))
+            if m == "strict_complex_constraints" and isinstance(res, list):
+                # 'cannot be transformed to a set of simple constraints' is refuted when every textbook transformation
+                # into clauses yields simple constraints only (one-way backstop shared with C18)
+                for c, cs in zip(fm.ctcs, model["ctcs"]):
+                    if str(c) in res and logic.is_logical(cs["ast"]) and logic.unanimously_pseudo(cs["ast"]) is True:
+                        out.append(("C17.value.strict_complex_constraints.transformable", logic.canon(cs["ast"])[:200]))
         elif "value" in r:
             if res != r["value"] or isinstance(res, bool):
                 out.append((f"C17.value.{m}", f"expected {r['value']!r}, got {res!r}"))
